@@ -3,7 +3,7 @@ from ..paths import explore, describe, describe_rv, pretty_place, bool_label
 from ..rules import calls_to, calls_where, blocks_of, order_ok
 from ..facts import callee_path
 
-TEXT = ('A spatial track without a resolvable listener writes Frame::ZERO for every frame; listener ids resolve through the generation-checked arena; spatialization_strength is clamped to [0,1] before 1 - strength and the ear gain is min + (1 - min)·v; the distance range is only used by clamp(min,max) and /(max-min) after an ordering test of the two bounds; the spatial info is inherited by child tracks and feeds Info::listener_distance. Monotonicity, symmetry and gain bounds are relations between renderings and are not decided. Inside the spatial branch the per-frame listener loop cannot be skipped. With an attenuation function the signal is multiplied by the distance amplitude on every path; it is folded to mono exactly when the strength is non-zero. Each channel is scaled by the gain of its own ear. The falloff is (clamp(d, min, max) - min) / (max - min). The ears are head-fixed (orientation applied to a constant vector, plus the position); every singular float operation in the spatial code has its domain proved or recorded (A.singular). Listener pose and emitter position are read at the same in-chunk time (lerp of previous and current on every path; interpolated_value(time_in_chunk) in spatialize); dropped listeners are removed (drain / sweep / drop / reserve rules of C08). Every non-frozen path of Track::process reaches its spatial branch; SpatialData::spatialize keeps no memory (takes &self, writes nothing, no interior-mutability field). Modulators, clocks and listeners advance in the documented order within a chunk. Listener and spatial-track handles write every command they are given (no \'the handle already knows\' shortcut). The removal scan of the listener storage visits every key.')
+TEXT = ('A spatial track without a resolvable listener writes Frame::ZERO for every frame; listener ids resolve through the generation-checked arena; spatialization_strength is clamped to [0,1] before 1 - strength and the ear gain is min + (1 - min)·v; the distance range is only used by clamp(min,max) and /(max-min) after an ordering test of the two bounds; the spatial info is inherited by child tracks and feeds Info::listener_distance. Monotonicity, symmetry and gain bounds are relations between renderings and are not decided. Inside the spatial branch the per-frame listener loop cannot be skipped. With an attenuation function the signal is multiplied by the distance amplitude on every path; it is folded to mono exactly when the strength is non-zero. Each channel is scaled by the gain of its own ear. The falloff is (clamp(d, min, max) - min) / (max - min). The ears are head-fixed (orientation applied to a constant vector, plus the position); every singular float operation in the spatial code has its domain proved or recorded (A.singular). Listener pose and emitter position are read at the same in-chunk time (lerp of previous and current on every path; interpolated_value(time_in_chunk) in spatialize); dropped listeners are removed (drain / sweep / drop / reserve rules of C08). Every non-frozen path of Track::process reaches its spatial branch; SpatialData::spatialize keeps no memory (takes &self, writes nothing, no interior-mutability field). Modulators, clocks and listeners advance in the documented order within a chunk. Listener and spatial-track handles write every command they are given (no \'the handle already knows\' shortcut). The removal scan of the listener storage visits every key. The spatial builder\'s setters store what they are given.')
 TECHNIQUE = 'MIR path / operand-flow rules + interval evaluation of singular float operations'
 
 TRACK = 'track::sub::Track'
